@@ -116,6 +116,10 @@ func (c *BaseClient) Connect(ctx context.Context, clientID string, opts ...Conne
 	c.init()
 	c.muConnecting.Lock()
 	defer c.muConnecting.Unlock()
+	if o.CleanSession {
+		// The session starts from scratch: forget inbound QoS 2 messages of a previous one.
+		c.inboundMessages().reset()
+	}
 
 	go func() {
 		err := c.serve()
